@@ -282,3 +282,28 @@ def panic_location(out):
     if "has overflowed its stack" in out:
         return "stack-overflow", 0
     return None
+
+
+def build_wasmdrv():
+    """Native driver around /repo's playground entry point oal_wasm::compile."""
+    import shutil as _sh
+    d = os.path.join(VERIF, "drivers", "wasmdrv")
+    lock = os.path.join(REPO, "Cargo.lock")
+    if os.path.exists(lock):
+        _sh.copyfile(lock, os.path.join(d, "Cargo.lock"))
+    tdir = os.path.join(CACHE, "drv-target")
+    rc, out, t = run(["cargo", "build", "--offline"], cwd=d, timeout=1500, extra_env={"CARGO_TARGET_DIR": tdir})
+    if rc != 0:
+        raise RuntimeError("wasmdrv build failed:\n" + out[-3000:])
+    return os.path.join(tdir, "debug", "wasmdrv")
+
+
+def run_wasm(drv, text, timeout=20):
+    """-> dict(rc, status 'OK'|'ERR'|None, body, out)"""
+    rc, out, t = run([drv], timeout=timeout, mem_gb=4, stdin=text, extra_env={"RUST_BACKTRACE": "0"})
+    status, body = None, ""
+    if out.startswith("OK\n"):
+        status, body = "OK", out[3:]
+    elif out.startswith("ERR\n"):
+        status, body = "ERR", out[4:]
+    return {"rc": rc, "status": status, "body": body, "out": out}
